@@ -13,6 +13,7 @@ import (
 	"context"
 	"encoding/hex"
 	"fmt"
+	"os"
 	"sort"
 	"strings"
 	"sync"
@@ -350,4 +351,14 @@ func miScheduleJitter(net *sim.RNG, nInst, nFacts, jitter int, pDup, pDrop float
 		out[i] = seq
 	}
 	return out
+}
+
+// miDumpTrace prints the kept event log to stderr when VERIF_TRACE is set
+// (development aid for `replay`, which keeps the log but does not print it).
+func miDumpTrace(tr *sim.Trace) {
+	if tr.Keep && os.Getenv("VERIF_TRACE") != "" {
+		for _, l := range tr.Lines {
+			fmt.Fprintln(os.Stderr, l)
+		}
+	}
 }
